@@ -192,11 +192,15 @@ unsafe fn drop_unreachable<T>(this: &mut Rc<T>) {
         // Move `T` out of the `RcBox`. Dropping an uninitialized `MaybeUninit`
         // has no effect.
         let inner = mem::replace(&mut (*rcbox).value, MaybeUninit::uninit());
+        #[cfg(cactusref_verif)]
+        crate::verif::poison(ptr::addr_of_mut!((*rcbox).value));
         // destroy the contained `T`.
         drop(inner.assume_init());
         // Move the links `HashMap` out of the `RcBox`. Dropping an uninitialized
         // `MaybeUninit` has no effect.
         let links = mem::replace(&mut (*rcbox).links, MaybeUninit::uninit());
+        #[cfg(cactusref_verif)]
+        crate::verif::poison(ptr::addr_of_mut!((*rcbox).links));
         // Destroy the heap-allocated links.
         drop(links.assume_init());
     }
@@ -285,9 +289,13 @@ unsafe fn drop_cycle<T>(cycle: HashMap<Link<T>, usize>) {
             // Move `T` out of the `RcBox`. Dropping an uninitialized
             // `MaybeUninit` has no effect.
             let inner = mem::replace(&mut (*rcbox).value, MaybeUninit::uninit());
+            #[cfg(cactusref_verif)]
+            crate::verif::poison(ptr::addr_of_mut!((*rcbox).value));
             // Move the links `HashMap` out of the `RcBox`. Dropping an
             // uninitialized `MaybeUninit` has no effect.
             let links = mem::replace(&mut (*rcbox).links, MaybeUninit::uninit());
+            #[cfg(cactusref_verif)]
+            crate::verif::poison(ptr::addr_of_mut!((*rcbox).links));
             trace!("cactusref deconstructed member {:p} of orphan cycle", rcbox);
             // Move `T` and the `HashMap` out of the `RcBox` to be dropped after
             // busting the cycle.
@@ -410,11 +418,15 @@ unsafe fn drop_unreachable_with_adoptions<T>(this: &mut Rc<T>) {
         // Move `T` out of the `RcBox`. Dropping an uninitialized `MaybeUninit`
         // has no effect.
         let inner = mem::replace(&mut (*rcbox).value, MaybeUninit::uninit());
+        #[cfg(cactusref_verif)]
+        crate::verif::poison(ptr::addr_of_mut!((*rcbox).value));
         // destroy the contained `T`.
         drop(inner.assume_init());
         // Move the links `HashMap` out of the `RcBox`. Dropping an uninitialized
         // `MaybeUninit` has no effect.
         let links = mem::replace(&mut (*rcbox).links, MaybeUninit::uninit());
+        #[cfg(cactusref_verif)]
+        crate::verif::poison(ptr::addr_of_mut!((*rcbox).links));
         // Destroy the heap-allocated links.
         drop(links.assume_init());
     }
